@@ -163,7 +163,7 @@ fn value_varint<const N: usize>(exclude_trigger: bool) {
             // refused exactly when the value is not ONE complete varint filling the declared length
             // (truncated, or followed by surplus bytes)
             assert!(!matches!(spec, Some((_, k)) if k == len), "a value that is exactly one varint is accepted");
-            kani::cover!(matches!(spec, Some((_, k)) if k < len), "surplus bytes are an error, not a panic");
+            kani::cover!(exclude_trigger || matches!(spec, Some((_, k)) if k < len), "surplus bytes are an error, not a panic");
             assert!(e.kind() == ErrorKind::TransportParameter);
             core::mem::forget(e);
         }
